@@ -1,6 +1,6 @@
-(* C07onecidDel — PARTIAL result towards "taggers AND deleters of one cid are linearizable":
-   the pool theorem [prelude_pool] (OneCidDel.v) for calls that reach ONE shared lock after a
-   PRELUDE of private acquisitions and of READS made outside that lock, restated in full.
+(* C07onecidDel — taggers AND deleters of one cid are linearizable, any number, every schedule:
+   [C07_one_cid_taggers_deleters_linearizable] below, restated in full, with the pool theorem
+   [prelude_pool] (OneCidDel.v) it is an instance of.
 
    delete_object q takes its two pid locks, runs find_object q (seven reads; the cid list and the
    object are SHARED) and only then takes the cid lock.  [prelude_pool] covers this shape:
@@ -12,15 +12,20 @@
    took L — thread j joins the order with its [entry j]-th step ([entry_order]) — with the same
    results.
 
-   PROVED here: the theorem, and that API programs satisfy its hypotheses (the taggers of one cid
-   are the instance with a one-step prelude: [one_cid_taggers_by_prelude]).
-   NOT proved: the instance for delete_object — (a) its shape ([Pre] with J = "q is bound to c":
-   pid reference, membership in the cid list, object present; [CS3] for the part under the cid
-   lock), (b) [Hkeep] for deleters (CrashGeneral.crash_WI says exactly this for thread 0;
-   delete_object creates no temp file, so thread numbers do not matter) and for taggers
-   (CrashGeneral would have to be generalised from thread 0 to thread t: temp names).
-   The extracted model finds no counterexample: the triples del||tag||tag and del||del||tag on one
-   cid over 1-3 bound pids that were swept are linearizable under every schedule (DESIGN.md 12.4b). *)
+   PROVED here:
+     - the pool theorem, and what its shape predicates say;
+     - the instance for pools of tag_object p_i c and delete_object q_j: pids pairwise distinct,
+       every q_j bound to c in the start world (reference, membership in the cid list, object
+       present), start world satisfying Spec.Inv.  J of a deleter = "q_j is bound to c"; [Hkeep] is
+       CrashGeneralT.solo_call_keeps_other (the Hoare-style frame of CrashGeneral.v for ANY thread:
+       every intermediate world of a call on pid p leaves another pid's reference, list membership
+       and object as they were).  The deleter decides "last reference: remove list and object"
+       from size_lines read INSIDE the cid lock, after its own rewrite of the list; what it read
+       outside the lock (find_object) only selects the branch, and that is stable;
+     - the non-vacuity example: tag_object 2 7 || tag_object 3 7 || delete_object 1, the deleter's
+       find_object BEFORE the first tagger's critical section and its own critical section AFTER.
+   NOT covered: deleters of pids that are not bound to c (they take other branches, some of which
+   take the cid lock late or not at all), store_object, delete_if_invalid_object. *)
 From HS Require Import Base PyVal FS Ops Sched Spec SeqLemmas Bracket Indep IndepMeta OneDoc OneCid OneCidDel.
 
 Theorem C07_prelude_pool :
@@ -164,3 +169,137 @@ Proof.
   vm_compute. reflexivity.
 Qed.
 Print Assumptions C07_onecidDel_nonvacuous.
+
+(* ---------- THE INSTANCE: taggers and deleters of one cid ---------- *)
+
+Theorem C07_one_cid_taggers_deleters_linearizable :
+  forall (c : cid) (calls : list call) (w0 : world) (sched : list nat) (cf : cfg),
+    Spec.Inv w0 ->
+    (* every call is tag_object p c or delete_object q *)
+    (forall cl : call, In cl calls ->
+       match cl with CTag _ c' => c' = c | CDelete _ => True | _ => False end) ->
+    (* the pids are pairwise distinct *)
+    NoDup (map (fun cl : call => match cl with CTag p _ | CDelete p => p | _ => 0 end) calls) ->
+    (* every deleted pid is bound to c: reference, membership in the cid list, object present *)
+    (forall q : pid, In (CDelete q) calls ->
+       lookup (APidRef q) (fs w0) = Some (CCid c) /\
+       (exists l : list pid, lookup (ACidRef c) (fs w0) = Some (CLines l) /\ In q l) /\
+       lookup (AObj c) (fs w0) <> None) ->
+    exec (map api calls) sched (init_cfg (map api calls) w0) = Some cf ->
+    stuck (map api calls) cf ->
+    finished (map api calls) cf = true /\ locks (snd cf) = [] /\
+    exists (w' : world) (rs : list (outcome value)),
+      (* the order in which the calls took the cid lock: a tagger with its 2nd step, a deleter
+         (two pid locks, the seven reads of find_object) with its 10th *)
+      let ord :=
+        snd (fold_left
+               (fun (s : list nat * list nat) (j : nat) =>
+                  (j :: fst s,
+                   if Nat.eqb (S (length (filter (Nat.eqb j) (fst s))))
+                              (match nth_error calls j with Some (CDelete _) => 10 | _ => 2 end)
+                   then snd s ++ [j] else snd s))
+               sched ([], [])) in
+      NoDup ord /\ (forall i : nat, In i ord <-> i < length calls) /\
+      seq_run calls ord w0 = Some (w', rs) /\
+      snd cf = w' /\
+      map (thread_result (map api calls) cf) ord = map Some rs.
+Proof. exact one_cid_taggers_deleters_linearizable. Qed.
+Print Assumptions C07_one_cid_taggers_deleters_linearizable.
+
+(* the deleters alone *)
+Theorem C07_one_cid_deleters_linearizable :
+  forall (c : cid) (pids : list pid) (w0 : world) (sched : list nat) (cf : cfg),
+    Spec.Inv w0 -> NoDup pids ->
+    (forall q : pid, In q pids ->
+       lookup (APidRef q) (fs w0) = Some (CCid c) /\
+       (exists l : list pid, lookup (ACidRef c) (fs w0) = Some (CLines l) /\ In q l) /\
+       lookup (AObj c) (fs w0) <> None) ->
+    exec (map api (map CDelete pids)) sched (init_cfg (map api (map CDelete pids)) w0) = Some cf ->
+    stuck (map api (map CDelete pids)) cf ->
+    finished (map api (map CDelete pids)) cf = true /\ locks (snd cf) = [] /\
+    exists (w' : world) (rs : list (outcome value)),
+      let ord := entry_order (td_entry (map CDelete pids)) sched in
+      NoDup ord /\ (forall i : nat, In i ord <-> i < length pids) /\
+      seq_run (map CDelete pids) ord w0 = Some (w', rs) /\
+      snd cf = w' /\
+      map (thread_result (map api (map CDelete pids)) cf) ord = map Some rs.
+Proof. exact one_cid_deleters_linearizable. Qed.
+Print Assumptions C07_one_cid_deleters_linearizable.
+
+(* the shape of delete_object q, under "q is bound to c": two private acquisitions, seven reads
+   with one continuation each, the cid lock as the 10th step *)
+Theorem C07_delete_shape :
+  forall (mine : nat -> lock -> bool) (pl : nat -> lock) (J : nat -> fmap -> Prop) (i : nat)
+         (q : pid) (c : cid),
+    (forall m : fmap, J i m ->
+       lookup (APidRef q) m = Some (CCid c) /\
+       (exists l : list pid, lookup (ACidRef c) m = Some (CLines l) /\ In q l) /\
+       lookup (AObj c) m <> None) ->
+    mine i (LObjPid, IPid q) = true -> mine i (LRefPid, IPid q) = true ->
+    pl i = (LRefPid, IPid q) ->
+    Pre (outcome value) (LCid, ICid c)
+        (fun l : lock => lockcls_eqb (fst l) LRefPid || lockcls_eqb (fst l) LObjPid)
+        mine pl J i 9 [] (api (CDelete q)).
+Proof. exact pre_delete. Qed.
+Print Assumptions C07_delete_shape.
+
+(* ---------- non-vacuity: tag_object 2 7 || tag_object 3 7 || delete_object 1 ---------- *)
+
+(* pid 1 bound to cid 7 *)
+Definition td_w : world :=
+  match run_history empty_world [CStore (Some 1) SrcPath 7 1 VSzNone VCkNone] with
+  | Some (w, _) => w
+  | None => empty_world
+  end.
+
+Definition td_calls : list call := [CTag 2 7; CTag 3 7; CDelete 1].
+
+(* the deleter (thread 2) takes its two pid locks and runs find_object (9 steps); THEN the first
+   tagger runs from start to end (24 steps: its whole critical section); then the deleter takes the
+   cid lock and runs its critical section (14 steps: pid 2 is listed by now, so the cid list and
+   the object stay); then the second tagger *)
+Definition td_sched : list nat := repeat 2 9 ++ repeat 0 24 ++ repeat 2 14 ++ repeat 1 24.
+
+Example C07_taggers_deleters_nonvacuous :
+  exists cf : cfg,
+    Spec.Inv td_w /\
+    (forall cl : call, In cl td_calls -> td_call 7 cl) /\
+    NoDup (map td_pid td_calls) /\
+    (forall q : pid, In (CDelete q) td_calls -> boundto q 7 (fs td_w)) /\
+    exec (map api td_calls) td_sched (init_cfg (map api td_calls) td_w) = Some cf /\
+    stuck (map api td_calls) cf /\
+    (* after the deleter's prelude the first tagger has not started *)
+    (exists c1 : cfg,
+       exec (map api td_calls) (repeat 2 9) (init_cfg (map api td_calls) td_w) = Some c1 /\
+       map (@length ans) (fst c1) = [0; 0; 9] /\ fs (snd c1) = fs td_w) /\
+    entry_order (td_entry td_calls) td_sched = [0; 2; 1] /\
+    seq_run td_calls [0; 2; 1] td_w = Some (snd cf, [Val VUnit; Val VUnit; Val VUnit]) /\
+    snd cf = mkWorld [(AObj 7, CData 7 1 1); (APidRef 2, CCid 7); (APidRef 3, CCid 7);
+                      (ACidRef 7, CLines [2; 3])] [].
+Proof.
+  assert (Hstart : Spec.Inv td_w /\ fsorted (fs td_w)).
+  { eapply (@run_history_empty_start [CStore (Some 1) SrcPath 7 1 VSzNone VCkNone] td_w).
+    - repeat constructor.
+    - vm_compute. reflexivity. }
+  destruct Hstart as [HI _].
+  destruct (exec (map api td_calls) td_sched (init_cfg (map api td_calls) td_w)) as [cf|] eqn:E;
+    [|vm_compute in E; discriminate].
+  exists cf.
+  split; [exact HI|].
+  split; [intros cl [<-|[<-|[<-|[]]]]; simpl; auto|].
+  split; [repeat constructor; simpl; intuition discriminate|].
+  split.
+  { intros q [H|[H|[H|[]]]]; inversion H; subst. vm_compute.
+    split; [reflexivity|]. split; [exists [1]; split; [reflexivity|left; reflexivity]|discriminate]. }
+  split; [reflexivity|].
+  vm_compute in E. inversion E; subst cf. clear E.
+  split; [apply succs_nil_stuck; vm_compute; reflexivity|].
+  split.
+  { destruct (exec (map api td_calls) (repeat 2 9) (init_cfg (map api td_calls) td_w)) as [c1|] eqn:E1;
+      [|vm_compute in E1; discriminate].
+    exists c1. split; [reflexivity|]. vm_compute in E1. inversion E1; subst c1. clear E1.
+    split; vm_compute; reflexivity. }
+  split; [vm_compute; reflexivity|]. split; [vm_compute; reflexivity|].
+  vm_compute. reflexivity.
+Qed.
+Print Assumptions C07_taggers_deleters_nonvacuous.
